@@ -367,6 +367,12 @@ def run_session(c, shared_ds=None, reuse_universe=False, reuse_signals=False):
     out['update_times'] = updates
     out['signal_obs'] = sig_obs
     out['warmup'] = (signals.warmup if signals is not None else None)
+    try:
+        # the windows the tracked signal holds when the session ends
+        out['final_windows'] = ([[k_, dq_.maxlen, [num(x_) for x_ in dq_]] for k_, dq_ in sorted(tracked_signal[0].buffers.prices.items())]
+                                if tracked_signal[0] is not None else None)
+    except Exception as e:
+        out['final_windows'] = ['err', type(e).__name__]
     xe = EXTRA_EQUITY if cfg.get('extra_portfolio') else 0.0
     out['equity'] = [[sec(t), num(v - xe)] for t, v in sess.equity_curve]         # (less the idle sub-portfolio's cash)
     out['allocs'] = [[sec(r_['Date']), [[k, num(v)] for k, v in r_.items() if k != 'Date']] for r_ in sess.target_allocations]
